@@ -115,6 +115,8 @@ def gen(rng, n, interval):
                 sched.append({"t": t, "j": j, "op": "eg_sub", "ep": ep})
         elif r < 0.6:
             sched.append({"t": t, "j": j, "op": "eg_set", "ev": rng.choice(EVENTS), "val": rng.randint(1, 200)})
+        elif r < 0.63 and len(subs) < len(EPS):      # a second StopSubscribe / one for an endpoint that never subscribed: no effect
+            sched.append({"t": t, "j": j, "op": "eg_unsub", "ep": rng.choice([e for e in EPS if e not in subs])})
         elif r < 0.66:
             sched.append({"t": t, "j": j, "op": "eg_badsub", "kind": rng.choice(["none", "two", "unknown_eventgroup"])})
         elif interval == 0:
